@@ -1212,3 +1212,186 @@ impl Engine for SkewedArgs {
         Verdict::Pass { digest: d.finish(), sig: fnv(serde_json::to_string(&*t).unwrap_or_default().as_bytes()), nontrivial: any }
     }
 }
+
+// ------------------------------------------------------------------ every bit of the outline-bearing tables
+
+#[derive(Clone, Debug, Serialize, Deserialize)]
+pub struct OutlineEnumTrace {
+    pub image: usize,
+    pub table: [u8; 4],
+    /// byte range of the table whose every bit is flipped in turn
+    pub start: u32,
+    pub len: u32,
+    #[serde(default)]
+    pub only_bit: Option<u32>,
+}
+
+pub struct OutlineBitEnum;
+
+const OUTLINE_TABLES: [&[u8; 4]; 9] = [b"glyf", b"CFF ", b"CFF2", b"gvar", b"hmtx", b"cvt ", b"fpgm", b"prep", b"HVAR"];
+const CHUNK: usize = 192;
+
+/// (image, table, chunk start) for every chunk of the first `limit` bytes of every outline-bearing table
+fn outline_chunks(limit: usize) -> Vec<(usize, [u8; 4], u32)> {
+    let mut v = Vec::new();
+    for (i, img) in images().iter().enumerate() {
+        for (t, _, l) in &img.tables {
+            if OUTLINE_TABLES.iter().any(|o| Tag::new(o) == *t) {
+                let mut s = 0;
+                while s < (*l).min(limit) {
+                    v.push((i, t.to_be_bytes(), s as u32));
+                    s += CHUNK;
+                }
+            }
+        }
+    }
+    v
+}
+
+/// Draws the glyphs a fault at `offset` of `table` lands in (or a sample) under the configurations
+/// that exercise scaling, both hinting engines and variation.
+fn focused_draws(bytes: &[u8], orig: &FontRef, table: Tag, offset: usize, stats: &mut Stats) -> u64 {
+    use skrifa::instance::{LocationRef, Size};
+    use skrifa::outline::{DrawSettings, HintingInstance, HintingOptions};
+    use skrifa::MetadataProvider;
+    let mut d = Digest::new();
+    let Ok(font) = FontRef::new(bytes) else { return 1 };
+    let n = orig.maxp().map(|m| m.num_glyphs() as u32).unwrap_or(0);
+    let mut gids: Vec<u32> = Vec::new();
+    if table == Tag::new(b"glyf") {
+        if let Ok(loca) = orig.loca(None) {
+            for g in 0..n {
+                if let (Some(a), Some(b)) = (loca.get_raw(g as usize), loca.get_raw(g as usize + 1)) {
+                    if (a as usize) <= offset && offset < b as usize {
+                        gids.push(g);
+                    }
+                }
+            }
+            // composites referencing it are affected too: draw a few neighbours
+            if let Some(g) = gids.first().copied() {
+                for k in 1..=3 {
+                    if g + k < n {
+                        gids.push(g + k);
+                    }
+                }
+            }
+        }
+    }
+    if gids.is_empty() {
+        gids = if n <= 14 { (0..n).collect() } else { (0..14).map(|i| (i * (n / 14).max(1)) % n).collect() };
+    }
+    let outlines = font.outline_glyphs();
+    let axes = font.axes();
+    let loc = axes.location([("wght", 650.0f32), ("wdth", 80.0), ("opsz", 20.0)]);
+    let zero: Vec<skrifa::instance::NormalizedCoord> = vec![];
+    let locs: [&[skrifa::instance::NormalizedCoord]; 2] = [&zero, loc.coords()];
+    let sizes = [Size::new(16.0), Size::unscaled(), Size::new(1000.0)];
+    let mut insts: Vec<HintingInstance> = Vec::new();
+    for coords in locs {
+        for eng in [0u8, 1] {
+            for tgt in [0u8, 1, 2] {
+                if let Ok(i) = HintingInstance::new(&outlines, sizes[0], LocationRef::new(coords), HintingOptions { engine: crate::engines::drawhist::engine_of(eng), target: crate::engines::drawhist::target_of(tgt) }) {
+                    insts.push(i);
+                }
+            }
+        }
+    }
+    if let Ok(i) = HintingInstance::new(&outlines, sizes[2], LocationRef::new(&zero), HintingOptions { engine: crate::engines::drawhist::engine_of(1), target: crate::engines::drawhist::target_of(1) }) {
+        insts.push(i);
+    }
+    for g in gids {
+        let Some(glyph) = outlines.get(GlyphId::new(g)) else { continue };
+        for coords in locs {
+            for s in sizes {
+                let mut rec = Recording::default();
+                d.u64(glyph.draw(DrawSettings::unhinted(s, LocationRef::new(coords)), &mut rec).is_ok() as u64 ^ ((rec.cmds.len() as u64) << 1));
+                stats.bump("sim.draws");
+            }
+            let mut rec = Recording::default();
+            d.u64(glyph.draw(DrawSettings::unhinted(sizes[0], LocationRef::new(coords)).with_path_style(skrifa::outline::pen::PathStyle::HarfBuzz), &mut rec).is_ok() as u64);
+        }
+        for i in &insts {
+            let mut rec = Recording::default();
+            d.u64(glyph.draw(DrawSettings::hinted(i, false), &mut rec).is_ok() as u64 ^ ((rec.cmds.len() as u64) << 1));
+            stats.bump("sim.draws");
+        }
+        if let Some(i) = insts.first() {
+            let mut rec = Recording::default();
+            d.u64(glyph.draw(DrawSettings::hinted(i, true), &mut rec).is_ok() as u64);
+        }
+        for coords in locs {
+            let gm = font.glyph_metrics(sizes[0], LocationRef::new(coords));
+            d.u64(gm.advance_width(GlyphId::new(g)).map(|x| x.to_bits() as u64).unwrap_or(1));
+            d.u64(gm.bounds(GlyphId::new(g)).map(|b| b.x_max.to_bits() as u64).unwrap_or(1));
+        }
+    }
+    d.finish()
+}
+
+impl Engine for OutlineBitEnum {
+    type Trace = OutlineEnumTrace;
+    fn name(&self) -> &'static str {
+        "outline_table_bit_flips_enumerated"
+    }
+    fn rule(&self) -> &'static str {
+        "case = one 192-byte chunk of an outline-bearing table (glyf, CFF, CFF2, gvar, hmtx, cvt, fpgm, prep, HVAR) of a corpus font, chosen by case index so that consecutive indices cover the first 4 KiB (quick) / 64 KiB (thorough) of every such table; inside the case EVERY single bit of the chunk is flipped in turn, the sfnt re-assembled, and the glyphs the flip landed in (via the original loca; otherwise a spread of glyphs) are drawn unhinted at three sizes and two locations, hinted by interpreter and auto-hinter for three targets, plus their metrics; judged by totality; non-trivial iff the chunk is non-empty"
+    }
+    fn components(&self) -> &'static str {
+        "real: skrifa outline drawing (glyf/CFF/CFF2 scaling, variations, interpreter, auto-hinter), glyph metrics; stub: bit-flip enumerator, recording pen"
+    }
+    fn generate(&self, case_seed: u64) -> OutlineEnumTrace {
+        self.generate_indexed(case_seed, case_seed)
+    }
+    fn generate_indexed(&self, index: u64, _case_seed: u64) -> OutlineEnumTrace {
+        static QUICK: OnceLock<Vec<(usize, [u8; 4], u32)>> = OnceLock::new();
+        static DEEP: OnceLock<Vec<(usize, [u8; 4], u32)>> = OnceLock::new();
+        let q = QUICK.get_or_init(|| outline_chunks(4096));
+        let (image, table, start) = if (index as usize) < q.len() {
+            q[index as usize]
+        } else {
+            let dd = DEEP.get_or_init(|| outline_chunks(65536).into_iter().filter(|c| c.2 >= 4096).collect());
+            if dd.is_empty() {
+                q[index as usize % q.len()]
+            } else {
+                dd[(index as usize - q.len()) % dd.len()]
+            }
+        };
+        OutlineEnumTrace { image, table, start, len: CHUNK as u32, only_bit: None }
+    }
+    fn execute(&self, t: &mut OutlineEnumTrace, stats: &mut Stats) -> Verdict {
+        let img = &images()[t.image];
+        let Ok(fr) = FontRef::new(img.data) else { return Verdict::Inconclusive("corpus image does not open".into()) };
+        let tag = Tag::new(&t.table);
+        let Some(payload) = fr.table_data(tag) else { return Verdict::Inconclusive("table missing".into()) };
+        let payload = payload.as_bytes().to_vec();
+        let start = t.start as usize;
+        let end = (start + t.len as usize).min(payload.len());
+        let bits: Vec<u32> = match t.only_bit {
+            Some(b) => vec![b],
+            None => ((start * 8) as u32..(end * 8) as u32).collect(),
+        };
+        let mut d = Digest::new();
+        for bit in bits {
+            let mut p = payload.clone();
+            let i = bit as usize / 8;
+            if i >= p.len() {
+                continue;
+            }
+            p[i] ^= 1 << (bit % 8);
+            stats.bump("fault.image.table.bit_flip");
+            let mut b = write_fonts::FontBuilder::new();
+            b.add_raw(tag, p);
+            b.copy_missing_tables(fr.clone());
+            let image = b.build();
+            t.only_bit = Some(bit);
+            d.u64(focused_draws(&image, &fr, tag, i, stats));
+            stats.bump("oracle.C02.total_sweep");
+        }
+        t.only_bit = None;
+        Verdict::Pass { digest: d.finish(), sig: fnv(&[t.image as u8, t.table[0], t.table[1], t.table[2], t.table[3], (t.start >> 8) as u8, t.start as u8]), nontrivial: end > start }
+    }
+}
+
+pub fn outline_chunk_count_quick() -> u64 {
+    outline_chunks(4096).len() as u64
+}
